@@ -622,6 +622,23 @@ fn check_jar(class_bytes: Vec<(String, Vec<u8>)>, models: &[CClass], map_stream:
 		dukebox::remap::remap(jar, ByRef(&remapper))
 	}
 	.map_err(|e| format!("dukebox::remap::remap failed: {e:#}"))?;
+	// second use of the same remapper on an equal jar: the same entries and the same classes
+	if case.map_stream.len() % 4 == 1 {
+		let jar2 = build_jar(&entries, case.input_form == 1)?;
+		let again = dukebox::remap::remap(jar2, ByRef(&remapper)).map_err(|e| format!("the second remap with the same remapper failed: {e:#}"))?;
+		if again.entries.keys().collect::<Vec<_>>() != result.entries.keys().collect::<Vec<_>>() {
+			return Err(format!("remapping an equal jar a second time with the same remapper gives other entries: {:?} vs {:?}", result.entries.keys().collect::<Vec<_>>(), again.entries.keys().collect::<Vec<_>>()));
+		}
+		for ((name, a), (_, b)) in result.entries.iter().zip(again.entries.iter()) {
+			if let (JarEntryEnum::Class(ClassRepr::Parsed { class: ca }), JarEntryEnum::Class(ClassRepr::Parsed { class: cb })) = (&a.content, &b.content) {
+				let (pa, pb) = (project(ca).map_err(|e| format!("harness: {e}"))?, project(cb).map_err(|e| format!("harness: {e}"))?);
+				if pa != pb {
+					return Err(format!("remapping an equal jar a second time with the same remapper gives another class {name}: {}", first_diff(&pa, &pb)));
+				}
+			}
+		}
+		obs.label("remapped_twice_with_one_remapper");
+	}
 
 	// expectations
 	let open_gaps = Gaps { enum_const_unmapped: obs.is_open("C07-annotation-enum-const"), dynamic_desc_unmapped: obs.is_open("C07-dynamic-descriptor") };
